@@ -25,7 +25,11 @@ LEVEL_TEXT = ("Coq theorems over Gallina models of the interface layer. Componen
               "any history outside the known class C18-selection-while-absent leaves on an interface the daemon holds, "
               "of a family that interface has, enabled by its last matching selection, and carries only addresses in "
               "a subnet of an address of that interface; after an IP check nothing in the cache is attributed to a "
-              "removed interface (for every state). The daemon model is tied to the Rust by a differential run of the "
+              "removed interface (for every state). The checker chk_C18 (necessary conditions on a trace) also demands "
+              "that every address of a resolved instance was learned on an interface that is not dropped (no entry "
+              "enabled, all reported by the OS), and that within one IP check an address is never withdrawn from "
+              "the services after it was added (IpDel after IpAdd of an address the OS has on one entry, in an "
+              "iteration without enable/disable calls). The daemon model is tied to the Rust by a differential run of the "
               "real daemon in the simulated world, with the checker chk_C18 run on the implementation's trace")
 TECHNIQUE = ("machine-checked proof in Coq (selection law by induction over the selection list, bitwise subnet law, "
              "membership characterisations of the cache operations) + model/implementation correspondence on the "
@@ -39,7 +43,14 @@ RULE = ("histories of 8-18 iterations over topologies of 1-3 interfaces (+ optio
         "5 s; one case = one history; non-trivial = the daemon sent a packet or reported an event; distinct = distinct "
         "histories.  Restrictions that keep the observation a function of the history: one fixed IPv4 address per "
         "interface (IPv6 addresses are added, removed and moved freely), at most three browsed instances, identical "
-        "content when an announcement is heard again, only explicit time steps")
+        "content when an announcement is heard again, only explicit time steps.  An announcement heard on an "
+        "interface may carry the peer's address of the other family too, whether or not the interface has that "
+        "family.  Family xfam (160 histories): an interface with addresses of ONE family (IPv4-only or IPv6-only) "
+        "hears announcements with A and AAAA records; it is then disabled by name / index / family / address / All "
+        "or disappears from the OS table; then a fresh browse, a TXT update or the announcement again on another "
+        "interface makes the daemon report the instance again; sometimes the interface comes back and is asked "
+        "once more.  The IpAdd / IpDel events of an iteration are compared as a set plus, for an address with "
+        "several events, their order")
 TRUSTED = [
     "Coq 8.16.1 kernel (coqc); vm_compute only in the non-vacuity Examples",
     "axioms: none (Print Assumptions: Closed under the global context for every theorem)",
@@ -63,7 +74,10 @@ PARTIAL = ("Theorems over all histories: C18_invariant_reachable, C18_step_prese
            "accepts every run of the model (C18_checker_accepts_every_run_partial in Props/C18.v: pkt_just is the "
            "packet part of chk_C18 on the model's side; missing are the octet round trip of addresses (width "
            "hypotheses), the identification of the IPv4 egress interface, and the IpAdd/IpDel conditions); chk_C18 is "
-           "run on every trace instead. The address records of a packet are tied to the interface's subnets in the "
+           "run on every trace instead (its conditions on resolved addresses and on the IpDel/IpAdd order are shown "
+           "for the model on the examples C18_dropped_interface_addresses_of_both_families_not_reported and "
+           "C18_moved_address_withdrawn_then_added). The address records of a packet are tied to the interface's "
+           "subnets in the "
            "history theorem and to the service's address list in the component theorems. IfKind::Predicate and "
            "multicast group membership are outside the model. The cache attributes a PTR/SRV/TXT record heard on "
            "several interfaces to the first one only (C18_record_keeps_first_interface); the removal statements are "
@@ -226,20 +240,31 @@ def host_addr(e, hostnum):
     return "fd99:%d::%x" % (e["index"], 0x600 + hostnum)
 
 
-def response_dgram(rng, e, ty, inst, hostnum, other=None):
+def response_dgram(rng, e, ty, inst, hostnum, other=None, cross=False, txt=b"\x03a=b", only_txt=False):
     """a peer's complete announcement of instance `inst`, heard on the interface of OS entry e;
-    `other` = entry of the other family on the same interface whose address is announced too"""
+    `other` = entry of the other family on the same interface whose address is announced too;
+    `cross` = the announcement carries the peer's address of the OTHER family as well, whether or not the
+    receiving interface has that family (an AAAA record in a packet that arrived over IPv4 and vice versa: the
+    cache attributes a record to the receiving interface, not to the family of the packet);
+    `only_txt` = a TXT update: PTR + a TXT record without the cache-flush bit"""
     v4 = ipaddress.ip_address(e["addr"]).version == 4
     host = "peerhost%d.local." % hostnum
     peer = host_addr(e, hostnum)
     p = dnsgen.Packet()
     full = inst + "." + ty
     p.rr(1, ty, 12, 1, 4500, dnsgen.rd_ptr(full))
+    if only_txt:
+        p.rr(1, full, 16, 1, 4500, dnsgen.rd_bytes(txt))
+        return {"if": e["index"], "v4": v4, "src": ("%s:5353" % peer) if v4 else ("[%s]:5353" % peer),
+                "hex": p.finish(flags=0x8400).hex()}
     p.rr(1, full, 33, 0x8001, 4500, dnsgen.rd_srv(0, 0, 7000, host))
-    p.rr(1, full, 16, 0x8001, 4500, dnsgen.rd_bytes(b"\x03a=b"))
+    p.rr(1, full, 16, 0x8001, 4500, dnsgen.rd_bytes(txt))
     p.rr(1, host, 1 if v4 else 28, 0x8001, 4500, dnsgen.rd_bytes(ipaddress.ip_address(peer).packed))
     if other is not None:
         o = ipaddress.ip_address(host_addr(other, hostnum))
+        p.rr(1, host, 1 if o.version == 4 else 28, 0x8001, 4500, dnsgen.rd_bytes(o.packed))
+    elif cross:
+        o = ipaddress.ip_address(host_addr({"addr": "::" if v4 else "0.0.0.0", "index": e["index"]}, hostnum))
         p.rr(1, host, 1 if o.version == 4 else 28, 0x8001, 4500, dnsgen.rd_bytes(o.packed))
     return {"if": e["index"], "v4": v4, "src": ("%s:5353" % peer) if v4 else ("[%s]:5353" % peer),
             "hex": p.finish(flags=0x8400).hex()}
@@ -311,7 +336,7 @@ def gen_history(rng, hid):
             if rng.random() < 0.4:
                 same = [x for x in cur if x["index"] == e["index"] and (":" in x["addr"]) != (":" in e["addr"])]
                 other = same[0] if same else None
-            st["dgrams"] = [response_dgram(rng, e, browse_ty, inst, hostnum, other)]
+            st["dgrams"] = [response_dgram(rng, e, browse_ty, inst, hostnum, other, cross=rng.random() < 0.3)]
             if rng.random() < 0.4:                           # the same announcement heard on a second interface
                 others = [x for x in cur if x["index"] != e["index"]]
                 if others:
@@ -323,9 +348,92 @@ def gen_history(rng, hid):
     return {"id": hid, "t0": T0, "daemons": [{"seed": 1, "ifaces": pool}], "link": "none", "steps": steps}
 
 
+def gen_xfam(rng, hid):
+    """family `xfam`: an interface with addresses of ONE family learns the peer's addresses of BOTH families
+    (the response that arrives over its family carries the other family's record too); then the interface is
+    disabled (by name / index / family / address / All) or disappears; then the cache is asked again (a fresh
+    browse) or an update arrives elsewhere that makes the daemon resolve the instance again (a TXT update or
+    the same announcement on another interface); sometimes the interface is enabled again and asked once more.
+    Nothing learned on the removed interface may be reported afterwards, whatever the family of the record."""
+    fam = rng.choice(["4", "6"])
+    if0 = mk_iface(0, fam, rng)
+    if1 = mk_iface(1, rng.choice(["4", "6", "46"]), rng) if rng.random() < 0.65 else []
+    pool = (if0 + if1) if rng.random() < 0.7 else (if1 + if0)
+    if rng.random() < 0.15:
+        pool = LO[:1] + pool
+    t = T0
+    ty = "_peer._udp.local."
+    first = [{"op": "monitor", "ch": "m"}]
+    fast = rng.random() < 0.8
+    if fast:
+        first.append({"op": "set_ip_check_interval", "secs": 1})
+    first.append({"op": "browse", "ty": ty, "ch": "b0"})
+    if rng.random() < 0.3:
+        first.append({"op": "register", "svc": gen_service(rng, 0, pool)})
+    steps = [{"t": t, "d": 0, "calls": first}]
+
+    def step(dt, **kw):
+        nonlocal t
+        t += dt
+        st = {"t": t, "d": 0}
+        st.update(kw)
+        steps.append(st)
+
+    e0 = if0[0]
+    ninst = rng.choice([1, 1, 2])
+    for k in range(ninst):
+        dg = [response_dgram(rng, e0, ty, "Peer%d" % k, k % 2, cross=True)]
+        if if1 and rng.random() < 0.4:                       # heard on the second interface too
+            dg.append(response_dgram(rng, rng.choice(if1), ty, "Peer%d" % k, k % 2, cross=rng.random() < 0.5))
+        step(rng.choice([100, 300, 700]), dgrams=dg)
+    # the interface goes
+    cur = list(pool)
+    how = rng.choice(["name", "index", "family", "addr", "all", "gone", "gone"])
+    v4 = fam == "4"
+    if how == "gone":
+        cur = [x for x in pool if x["index"] != e0["index"]]
+        step(rng.choice([100, 600]), ifaces=cur)
+        step(1100 if fast else 5100)                         # the IP check notices
+    else:
+        kind = {"name": {"k": "Name", "v": e0["name"]},
+                "index": {"k": "IndexV4" if v4 else "IndexV6", "v": e0["index"]},
+                "family": {"k": "IPv4" if v4 else "IPv6"},
+                "addr": {"k": "Addr", "v": e0["addr"]},
+                "all": {"k": "All"}}[how]
+        step(rng.choice([100, 600, 1100]), calls=[{"op": "disable_interface", "kinds": [kind]}])
+    # the cache is asked again
+    nb = 1
+    for _ in range(rng.choice([1, 2, 2])):
+        r = rng.random()
+        live1 = [x for x in if1 if x in cur] if how not in ("all",) else []
+        if how == "family":
+            live1 = [x for x in live1 if (":" in x["addr"]) == v4]
+        if r < 0.45 or not live1:
+            step(rng.choice([100, 300, 1200]), calls=[{"op": "browse", "ty": ty, "ch": "b%d" % nb}])
+            nb += 1
+        elif r < 0.75:
+            k = rng.randrange(ninst)
+            step(rng.choice([100, 300, 1200]),
+                 dgrams=[response_dgram(rng, rng.choice(live1), ty, "Peer%d" % k, k % 2, only_txt=True, txt=b"\x03a=c")])
+        else:
+            k = rng.randrange(ninst)
+            step(rng.choice([100, 300, 1200]),
+                 dgrams=[response_dgram(rng, rng.choice(live1), ty, "Peer%d" % k, k % 2, cross=rng.random() < 0.5)])
+    if rng.random() < 0.4:                                   # back again: what was dropped stays dropped
+        if how == "gone":
+            step(300, ifaces=list(pool))
+            step(1100 if fast else 5100)
+        else:
+            step(300, calls=[{"op": "enable_interface", "kinds": [{"k": "All"}]}])
+        step(200, calls=[{"op": "browse", "ty": ty, "ch": "b%d" % nb}])
+    return {"id": hid, "t0": T0, "daemons": [{"seed": 1, "ifaces": pool}], "link": "none", "steps": steps}
+
+
 def generate(rng, tier):
     n = 1500 if tier == "quick" else 30000
-    return [Case(jdump(gen_history(rng, "c18-%d" % i)), "history") for i in range(n)]
+    nx = 160 if tier == "quick" else 3000
+    return [Case(jdump(gen_history(rng, "c18-%d" % i)), "history") for i in range(n)] + \
+           [Case(jdump(gen_xfam(rng, "c18x-%d" % i)), "xfam") for i in range(nx)]
 
 
 # --------------------------------------------------------------------------- observation / model input
@@ -397,13 +505,16 @@ def project(line, raw):
     outs = []
     for st, rec in zip(steps, recs):
         ev, br = [], []
+        seq = {}
         for ch, evs in (rec.get("events") or {}).items():
             for e in evs:
                 if ch == "m":
                     if e.get("e") == "IpAdd":
                         ev.append("add." + ip_tok(e["ip"]))
+                        seq[ip_tok(e["ip"])] = seq.get(ip_tok(e["ip"]), "") + "a"
                     elif e.get("e") == "IpDel":
                         ev.append("del." + ip_tok(e["ip"]))
+                        seq[ip_tok(e["ip"])] = seq.get(ip_tok(e["ip"]), "") + "d"
                 elif ch.startswith("b"):
                     t = br_tok(e)
                     if t:
@@ -417,6 +528,9 @@ def project(line, raw):
             if f[0] in ("resolved", "removed"):
                 last[(f[1], f[2])] = k
         br = [t for k, t in enumerate(br) if t.split("/")[0] == "found" or last[(t.split("/")[1], t.split("/")[2])] == k]
+        # the events of an iteration are compared as a set; for an address with several events their
+        # order is kept too (withdrawn and added again, or added and then withdrawn)
+        ev += ["seq.%s.%s" % (a, w) for a, w in seq.items() if len(w) >= 2]
         tx = []
         for x, pk in parsed_sent(rec):
             if pk is not None and not (pk["flags"] & 0x8000):
